@@ -15,6 +15,7 @@ from . import symex
 
 RLIMIT = int(os.environ.get('VERIF_RLIMIT', '40000000'))
 CVC5 = '/usr/bin/cvc5'
+TIMEOUT_MS = int(os.environ.get('VERIF_TIMEOUT_MS', '30000'))
 
 
 def order_axioms(sort_name):
@@ -26,12 +27,40 @@ def order_axioms(sort_name):
           z3.ForAll([a, b], z3.Or(lt(a, b), lt(b, a), a == b))]
 
 
+def list_axioms():
+  """len(f(args)) >= 0 (and len(f(args)[i]) >= 0 for lists of lists) for every uninterpreted
+  function that returns a Python list: a list never has a negative length.  Stated per function
+  symbol (a quantifier over the list datatype itself would be inconsistent: mk(a, -1) is a term)."""
+  out = []
+  for name, (f, rett) in list(symex.LIST_UFS.items()):
+    n = f.arity()
+    xs = [z3.Const('a!%d' % i, f.domain(i)) for i in range(n)]
+    app = f(*xs)
+    srt = sv.zsort(rett)
+    body = srt.len(app) >= 0
+    if n:
+      out.append(z3.ForAll(xs, body, patterns=[app]))
+    else:
+      out.append(body)
+    if rett.args[0].kind == 'list':
+      i = z3.Int('i!la')
+      es = sv.zsort(rett.args[0])
+      el = z3.Select(srt.arr(app), i)
+      out.append(z3.ForAll(xs + [i], es.len(el) >= 0, patterns=[el]))
+  return out
+
+
 def check(ob, extra_axioms=(), want_model=True, rlimit=None):
   """Solves one obligation instance in-process with z3; falls back to cvc5 on unknown."""
   t0 = time.time()
   s = z3.Solver()
   s.set('rlimit', rlimit or RLIMIT)
+  # rlimit is the deterministic budget; the wall-clock cap only guards against z3 phases that do
+  # not count resources (seen with lambdas under quantifiers)
+  s.set('timeout', 4000 if ob.expect in ('sat', 'sat-any') else TIMEOUT_MS)
   for a in extra_axioms:
+    s.add(a)
+  for a in list_axioms():
     s.add(a)
   for p in ob.pc:
     s.add(p)
